@@ -95,6 +95,17 @@ def _wrp(old, val, o, w, tw):
     return (old & ~m) | (bits & m)
 
 
+def _wake_range(V, D, FM, lo, old):
+    """Net-change wake-up for an unpacked array written through a run-time
+    index: compare every element with its value on entry of the process."""
+    for j, o in enumerate(old):
+        x = V[lo + j] ^ o
+        if x:
+            for m, ps in FM[lo + j]:
+                if x & m:
+                    D.update(ps)
+
+
 def _loop_overrun(where):
     raise SvError('for loop at %s exceeded the iteration cap (non-terminating loop?)' % where)
 
@@ -102,5 +113,5 @@ def _loop_overrun(where):
 NAMESPACE = {
     '_sx': _sx, '_divu': _divu, '_modu': _modu, '_divs': _divs, '_mods': _mods,
     '_shl': _shl, '_shr': _shr, '_ashr': _ashr, '_powu': _powu, '_pows': _pows,
-    '_rdp': _rdp, '_wrp': _wrp, '_loop_overrun': _loop_overrun,
+    '_rdp': _rdp, '_wrp': _wrp, '_loop_overrun': _loop_overrun, '_wake_range': _wake_range,
 }
